@@ -10,7 +10,10 @@
 typedef struct { const char *b; size_t n; } atom_t;
 #define A(s) {s, sizeof(s) - 1}
 static const atom_t ATOMS[] = {A("/"), A("."), A("a"), A("A"), A("\\"), A("%"), A("u"), A("%2f"), A("%5c"), A("%2e"), A("%00"), A("%25"), A("%41"), A("%zz"), A("%2"),
-    A("%u002f"), A("%uff0f"), A("%u00"), A("\0"), A("\xc3\xa9"), A("\xc0\xaf"), A("\x80"), A("\xef\xbc\x8f")};
+    A("%u002f"), A("%uff0f"), A("%u00"), A("\0"), A("\xc3\xa9"), A("\xc0\xaf"), A("\x80"), A("\xef\xbc\x8f"),
+    /* 4-byte forms: a supplementary-plane character whose low 16 bits are a key of the best-fit map (U+1FF0F -> must NOT become '/'), U+10000, an overlong
+     * 4-byte and 3-byte '/', a code point above U+10FFFF, a surrogate */
+    A("\xf0\x9f\xbc\x8f"), A("\xf0\x90\x80\x80"), A("\xf0\x80\x80\xaf"), A("\xe0\x80\xaf"), A("\xf4\x90\x80\x80"), A("\xed\xa0\x80")};
 #define NATOMS (sizeof ATOMS / sizeof *ATOMS)
 
 static const struct { uint64_t bit; const char *name; } PF[] = {
